@@ -448,7 +448,12 @@ func Exec(args []string, env *Env) int {
 			if env.InProc {
 				os.MkdirAll(filepath.Dir(full), 0777)
 			}
-			f, err = os.OpenFile(full, os.O_CREATE|os.O_WRONLY|os.O_TRUNC, 0644)
+			flags := os.O_CREATE | os.O_WRONLY | os.O_TRUNC
+			if opts["append"] != "" {
+				// a command that builds on what it finds (">>" loops, resumable tools)
+				flags = os.O_CREATE | os.O_WRONLY | os.O_APPEND
+			}
+			f, err = os.OpenFile(full, flags, 0644)
 		}
 		if err != nil {
 			return finish(5, "cannot open output "+path+": "+err.Error(), outs, insMap)
